@@ -22,9 +22,26 @@ def main : IO UInt32 := do
   | hd :: rest =>
     match Sympler.words hd with
     | ["model", name] =>
-      match dispatch name rest with
-      | some out =>
-        for l in out do IO.println l
-        return 0
+      match dispatch name [] with
       | none => IO.eprintln s!"symdrv: unknown model {name}"; return 2
+      | some _ =>
+        if rest.any (·.startsWith "###") then
+          -- multi-case input: every case starts with a `###` line
+          let mut cur : Array String := #[]
+          let mut started := false
+          for l in rest do
+            if l.startsWith "###" then
+              if started then
+                for o in (dispatch name cur.toList).getD [] do IO.println o
+              IO.println l
+              cur := #[]
+              started := true
+            else
+              cur := cur.push l
+          if started then
+            for o in (dispatch name cur.toList).getD [] do IO.println o
+          return 0
+        else
+          for l in (dispatch name rest).getD [] do IO.println l
+          return 0
     | _ => IO.eprintln "symdrv: first line must be `model <name>`"; return 2
